@@ -265,6 +265,11 @@ type c25Case struct {
 	Fork   *[3]int `json:"fork,omitempty"` // fork-order case: events e1, e2 on P and e3 on step(P,e1)
 	// guarantee-shape case: one more block (event Ev for root/theta) whose guarantees carry package
 	// hashes that share their first Share bytes, listed in the order Order (indices by ascending hash)
+	// sentinel-value chain: after Events, one block per code (root*9 + g*3 + th over the alphabets
+	// root ∈ {all-zero, r1, r2}, g ∈ {none, one package with all-zero hash and exports root, one
+	// package with a hash that is the same in every block}, θ′ ∈ {∅, one all-zero output of service 0,
+	// one output that is the same in every block})
+	Sent  []int      `json:"sent,omitempty"`
 	Shape *c25GShape `json:"shape,omitempty"`
 	Ev    int        `json:"ev,omitempty"`
 }
@@ -333,6 +338,41 @@ func c25BlockG(d int, ev int, parent c25Hash, shape *c25GShape) (types.Block, c2
 	return types.Block{Header: hdr, Extrinsic: types.Extrinsic{Guarantees: egs}}, pr, reps, theta
 }
 
+// block d of a sentinel-value chain (values that collide with placeholders or with the previous block)
+func c25BlockSent(d int, code int, parent c25Hash) (types.Block, c25Hash, []c25Rep, []c25Theta) {
+	root, g, th := code/9, (code/3)%3, code%3
+	var pr c25Hash // root 0: the all-zero parent state root (same bytes as the H^0 placeholder)
+	if root > 0 {
+		pr = c25Fill(0x50+byte(root), 0, 0)
+	}
+	var reps []c25Rep
+	var egs types.GuaranteesExtrinsic
+	if g > 0 {
+		var ph, ex c25Hash // g 1: all-zero package hash and exports root
+		if g == 2 {
+			ph, ex = c25Fill(0xC7, 0, 0), c25Fill(0x37, 0, 0) // identical in every block
+		}
+		reps = append(reps, c25Rep{ph, ex})
+		egs = append(egs, types.ReportGuarantee{Report: types.WorkReport{
+			PackageSpec: types.WorkPackageSpec{Hash: types.WorkPackageHash(ph), ExportsRoot: types.ExportsRoot(ex)},
+		}})
+	}
+	var theta []c25Theta
+	switch th {
+	case 1:
+		theta = []c25Theta{{Svc: 0}} // all-zero output of service 0: the encoding is 36 zero bytes
+	case 2:
+		theta = []c25Theta{{Svc: 7, Hash: c25Fill(0x97, 0, 0)}} // identical in every block
+	}
+	hdr := types.Header{
+		Parent:          types.HeaderHash(parent),
+		ParentStateRoot: types.StateRoot(pr),
+		Slot:            types.TimeSlot(100 + d),
+		AuthorIndex:     types.ValidatorIndex(d % 6),
+	}
+	return types.Block{Header: hdr, Extrinsic: types.Extrinsic{Guarantees: egs}}, pr, reps, theta
+}
+
 func c25LenClass(n int) string {
 	switch {
 	case n == 0:
@@ -350,8 +390,16 @@ func c25Run(r *vlib.Run, c c25Case, checkFrom int) string {
 	var ref c25Ref
 	var parent c25Hash
 	var trace strings.Builder
-	for d, ev := range c.Events {
-		blk, pr, reps, theta := c25Block(d, ev, parent)
+	for d := 0; d < len(c.Events)+len(c.Sent); d++ {
+		var blk types.Block
+		var pr c25Hash
+		var reps []c25Rep
+		var theta []c25Theta
+		if d < len(c.Events) {
+			blk, pr, reps, theta = c25Block(d, c.Events[d], parent)
+		} else {
+			blk, pr, reps, theta = c25BlockSent(d, c.Sent[d-len(c.Events)], parent)
+		}
 		hh := c25HeaderHash(blk.Header)
 		priorLen := len(ref.Hist)
 		priorPeaks := 0
@@ -380,6 +428,9 @@ func c25Run(r *vlib.Run, c c25Case, checkFrom int) string {
 			r.Eval()
 		}
 		key := fmt.Sprintf("len=%s,g=%d,theta=%d", c25LenClass(priorLen), len(reps), len(theta))
+		if len(c.Sent) > 0 {
+			key = "sentinel-values,len=" + c25LenClass(priorLen) // few signatures per defect
+		}
 		site := "recent_history.STFBetaHDagger2BetaHPrime"
 		if panicked {
 			r.Violation(site, "go-panic", key, fmt.Sprintf("history %v block %d: Go panic %s", c.Events, d, msg), c)
@@ -398,9 +449,16 @@ func c25Run(r *vlib.Run, c c25Case, checkFrom int) string {
 				}
 			}
 			r.Class(fmt.Sprintf("prior=%s dropped=%v g=%d theta=%d mmr-merges=%d", c25LenClass(priorLen), priorLen == c25H, len(reps), len(theta), priorPeaks+1-nowPeaks))
+			if d >= len(c.Events) {
+				code := c.Sent[d-len(c.Events)]
+				r.Class(fmt.Sprintf("sentinel prior=%s root=%d g=%d theta=%d (0=all-zero)", c25LenClass(priorLen), code/9, (code/3)%3, code%3))
+			}
 			r.State(ref.canon())
 		}
 		where := fmt.Sprintf("history %v block %d (prior length %d)", c.Events, d, priorLen)
+		if len(c.Sent) > 0 {
+			where = fmt.Sprintf("history %v followed by sentinel-value blocks %v (code = root*9+g*3+θ; 0 = all-zero, 2 = same as previous block), block %d (prior length %d)", c.Events, c.Sent, d, priorLen)
+		}
 		bad := !c25Compare(r, c, key, where, got, ref, before, len(theta), priorPeaks)
 		if bad {
 			return "diverged"
@@ -714,5 +772,18 @@ func TestVerif_C25(t *testing.T) {
 				c25ShapeRun(r, c25Case{Events: p, Shape: &sh, Ev: ev})
 			}
 		}
+	}
+
+	// ---- sentinel-value chains: all-zero and equal-to-previous values in every position ----
+	sentLen := vlib.Pick(r, 3, 4)
+	for _, pre := range [][]int{{}, {0, 17, 5, 13, 8, 2, 16}} {
+		vlib.Sequences(27, sentLen, func(q []int) {
+			idx++
+			if !r.Mine(idx) {
+				return
+			}
+			r.Space(1)
+			c25Run(r, c25Case{Events: pre, Sent: append([]int{}, q...)}, 0)
+		})
 	}
 }
